@@ -24,6 +24,7 @@ Report(probs) == IF probs = {} THEN TRUE ELSE PrintT(<<"PROBLEMS", ToJson([idx |
 
 \* markers: [where |-> "stream" | "string", n |-> object number, key |-> dictionary key (strings), bytes |-> plaintext bytes]
 \* markers: where = "stream" (object n) | "string" (object n, key) | "info" (trailer /Info, key) | "content" (page number)
+\*          | "anywhere" (some string of some object) | "anystream" (the data of some stream object)
 ContentRefsOf(pg) == LET c == Get(PageList[pg].node, K_Contents) IN
                      IF c.t = "ref" /\ Deref(c).t = "arr" THEN Deref(c).v ELSE IF c.t = "arr" THEN c.v ELSE <<c>>
 RECURSIVE StrIn(_, _)
@@ -35,6 +36,7 @@ StrIn(bytes, v) == CASE v.t = "str" -> Occurs(bytes, v.b)
 MarkerFound(key, m) ==
   CASE m.where = "anywhere" -> \E n \in DOMAIN res : res[n].found /\ StrIn(m.bytes, PlainObject(key, n))
     [] m.where = "stream" -> LET s == PlainStream(key, m.n) IN s.ok /\ Occurs(m.bytes, s.out)
+    [] m.where = "anystream" -> \E n \in DOMAIN res : res[n].found /\ res[n].val.t = "stream" /\ (LET s == PlainStream(key, n) IN s.ok /\ Occurs(m.bytes, s.out))
     [] m.where = "content" -> m.page <= Len(PageList) /\ \E x \in 1..Len(ContentRefsOf(m.page)) :
                                 LET c == ContentRefsOf(m.page)[x] s == IF c.t = "ref" THEN PlainStream(key, c.n) ELSE [ok |-> FALSE, out |-> <<>>]
                                 IN s.ok /\ Occurs(m.bytes, s.out)
